@@ -45,7 +45,7 @@ def generate_chain(rng, i):
     contract the chain stands for at execution time."""
     from tesim.props import c11
     for _ in range(6):
-        sc = c11.generate(rng, i)
+        sc = c11.generate_single(rng, i)
         if not sc.get("construct_only"):
             sc["chain_world"] = True
             sc["frictionless"] = False
@@ -131,6 +131,18 @@ def generate(rng, i):
     script.append({"op": "reset", "env": 0, "fold": None, "np_seed": rng.randrange(2 ** 31)})
     null = 0 if sp["type"] == "discrete" else [0.0] * n
     script.append({"op": "step", "env": 0, "action": null})
+    if i % 7 == 3 and sp["type"] == "box" and sp["as_weights"]:
+        # declared bounds that exclude zero (a minimum holding per asset, or a short-only space): entries between zero
+        # and the bound are outside the space.  No delay here (the padding null action would itself be outside it).
+        # Decided by the run index, and every in-space vector is clipped into the new bounds
+        sp["low"], sp["high"] = [(0.25, 0.625), (-0.75, -0.125)][(i // 7) % 2]
+        env["delay"] = 0
+        env["cash"] = max(env.get("cash") or 0, 1e6)
+        for op in script:
+            a = op.get("action")
+            vec = a["v"] if isinstance(a, dict) and "v" in a else a
+            if op["op"] == "step" and isinstance(vec, list):
+                vec[:] = [min(sp["high"], max(sp["low"], x)) for x in vec]
     return {"kind": "epi", "envs": [env], "clock0": "1999-01-01T00:00:00", "script": script, "prng": rng.randrange(2 ** 31),
             "frictionless": frictionless}
 
